@@ -135,18 +135,26 @@ def const_int(t):
     return None
 
 
-def self_writes(body, local=1):
-    """Sites writing (assign / call destination / &mut borrow) through parameter `local`
-    (usually `self`). Returns [(site, first field name)]."""
+def self_writes(body, local=None):
+    """Sites writing (assign / call destination / &mut borrow) through `self` (parameter 1, or in
+    coroutine bodies the local named `self` that the captured receiver is moved into).
+    Returns [(site, first field name)]."""
     out = []
+    if local is None:
+        locs = {i for i, l in enumerate(body.locals) if l.get('name') == 'self'} | {1}
+    else:
+        locs = {local}
 
     def first_field(pl):
-        if pl['l'] != local:
+        if pl['l'] not in locs:
             return None
-        for p in pl['p']:
-            if isinstance(p, dict) and 'f' in p:
-                return p['f']
-        return None
+        fields = [p['f'] for p in pl['p'] if isinstance(p, dict) and 'f' in p]
+        if fields and fields[0].startswith('^'):
+            # closure / coroutine body: `self` is a captured variable of the state object
+            if fields[0] != '^self':
+                return None
+            fields = fields[1:]
+        return fields[0] if fields else None
     for s in body.assigns(lambda pl: first_field(pl) is not None):
         pl = s.data['place'] if s.kind == 'assign' else s.data['dest']
         out.append((s, first_field(pl)))
